@@ -361,3 +361,101 @@ func ruleJSONLEAF(c *Ctx, r *Report) {
 		r.bad(rule, "decoder|leaf-set", c.pos(ctor.Pos()), "the decoder's leaf constructor builds {"+gb+"}; it must be able to build Literal, Wild and Regexp leaves and nothing else")
 	}
 }
+
+// JSON-OP (C12): the decoder takes the operator from the document and does not rewrite it.
+func ruleJSONOP(c *Ctx, r *Report) {
+	const rule = "JSON-OP"
+	r.doc(rule, "every store to the Op field in the JSON decoder (and in the private helpers it hands its receiver to) stores the result of the operator-name lookup: the decoder does not re-derive the operator from the operands (the general constructor does that for parsed queries; repeating it on decoded leaves, whose kind is inferred from their text, changes EQUALS into LIKE for a quoted pattern)")
+	dec := c.method(pkgExpr, "Expression", "UnmarshalJSON")
+	et := c.namedType(pkgExpr, "Expression")
+	if dec == nil || et == nil {
+		r.bad(rule, "anchor", "-", "UnmarshalJSON not found")
+		return
+	}
+	st := et.Underlying().(*types.Struct)
+	var opF *types.Var
+	for i := 0; i < st.NumFields(); i++ {
+		if st.Field(i).Name() == "Op" {
+			opF = st.Field(i)
+		}
+	}
+	fs := c.readTable(pkgExpr, "fromString")
+	n := 0
+	for _, s := range c.storesToFields(opF) {
+		if s.fn != dec && !c.reachedOnlyFrom(s.fn, dec, 0) {
+			continue
+		}
+		n++
+		v := c.resolve(s.st.Val, nil)
+		ok := false
+		switch x := v.(type) {
+		case *ssa.Lookup:
+			if ld, isLd := x.X.(*ssa.UnOp); isLd && fs.Global != nil && ld.X == ssa.Value(fs.Global) {
+				ok = true
+			}
+		case *ssa.Extract:
+			if lk, isLk := x.Tuple.(*ssa.Lookup); isLk && x.Index == 0 {
+				if ld, isLd := lk.X.(*ssa.UnOp); isLd && fs.Global != nil && ld.X == ssa.Value(fs.Global) {
+					ok = true
+				}
+			}
+		}
+		key := fnName(s.fn) + "|Op←" + c.key(v, nil)
+		if ok {
+			r.ok(rule, key, c.instrPos(s.st), "operator-name lookup")
+		} else {
+			r.bad(rule, key, c.instrPos(s.st), fmt.Sprintf("the decoder sets the operator to %s instead of what the document names: re-encoding the decoded tree gives different bytes and different SQL", c.key(v, nil)))
+		}
+	}
+	r.floor(rule, "stores to Op in the decoder", n, 1)
+}
+
+// JSON-PRINT (C12): the printed form of a leaf does not depend on its kind.
+func ruleJSONPRINT(c *Ctx, r *Report) {
+	const rule = "JSON-PRINT"
+	r.doc(rule, "a renderer registered for more than one of the leaf kinds Literal/Wild/Regexp does not branch on the node's operator when printing query text (verbose = false): the decoder infers a leaf's kind from its text, so a quoted pattern is a Literal in the parsed tree and a Wild in the decoded one, and both must print identically")
+	rops := c.rendererOps()
+	n := 0
+	for fn, ops := range rops {
+		leafKinds := 0
+		for _, o := range ops {
+			if contains(leafOps, o) {
+				leafKinds++
+			}
+		}
+		if leafKinds < 2 || len(fn.Params) < 2 {
+			continue
+		}
+		n++
+		paths, complete := c.enumPathsInl(fn, 5000)
+		if !complete {
+			r.bad(rule, fnName(fn)+"|paths", c.pos(fn.Pos()), "too many paths")
+			continue
+		}
+		bad := false
+		for _, p := range paths {
+			if p.Ret == nil {
+				continue
+			}
+			verbose := false
+			for _, a := range p.Atoms {
+				if a.Kind == "bool" && a.Subj == "$1" && a.Pos {
+					verbose = true
+				}
+			}
+			if verbose {
+				continue
+			}
+			for _, a := range p.Atoms {
+				if (a.Kind == "cmp" || a.Kind == "call") && (a.Subj == "$0.Op" || strings.Contains(a.Val, "$0.Op")) {
+					bad = true
+					r.bad(rule, fnName(fn)+"|"+a.String(), c.instrPos(p.Ret), fmt.Sprintf("%s (registered for %v) prints a leaf differently depending on its kind (%s): a quoted pattern prints one way from the parsed tree and another way after a JSON round trip", fnName(fn), ops, a.String()))
+				}
+			}
+		}
+		if !bad {
+			r.ok(rule, fnName(fn), c.pos(fn.Pos()), "query text of a leaf is independent of its kind")
+		}
+	}
+	r.floor(rule, "renderers shared by leaf kinds", n, 1)
+}
